@@ -15,9 +15,11 @@
                     Well-formed (wf_action): verbatim fields (xpaths, names,
                     prefixes, URIs) contain no line-break character, no
                     leading/trailing white space, and every comma stands inside a
-                    double-quoted literal that is closed again (rawq_ok: in particular
-                    no comma and no double quote at all; but also a hand-written
-                    path such as /doc/para[@id="intro, part 1"], at which
+                    double-quoted literal that is closed again or inside the braces
+                    of a Clark name {uri}local that begins the field (rawq_ok: in
+                    particular no comma and no double quote at all; but also a
+                    hand-written path such as /doc/para[@id="intro, part 1"] and a
+                    name such as {tag:example.org,2005:x}item, at which
                     DiffParser._split does not split); JSON-encoded
                     fields (text, attribute values, comments) are None or ANY
                     string of non-surrogate code points <= U+10FFFF; integer
@@ -89,3 +91,39 @@ Proof.
   - vm_compute. split; reflexivity.
 Qed.
 Print Assumptions C02_quoted_path_example.
+
+(* Namespace names are written verbatim inside a Clark name {uri}local and may hold commas (every name of the tag:
+   URI scheme does) and even double quotes; since the repair "fix: DiffParser splits a namespace URI at its commas"
+   DiffParser._split does not split inside the braces of a Clark name that begins a field.  C02_clark_names: every
+   such name -- the namespace part ANY string without a closing brace and a line break, the local part printable
+   without comma and quote -- is a well-formed verbatim field, so C02_parse_format covers scripts that carry it. *)
+Theorem C02_clark_names : forall u l,
+  ~ In 125 u -> Forall (fun c => is_linebreak c = false) u ->
+  Forall (fun c => 33 <= c <= 126 /\ c <> 44 /\ c <> 34) l -> l <> [] ->
+  wf_val ERaw (PStr (123 :: u ++ 125 :: l)).
+Proof. exact clark_rawq. Qed.
+Print Assumptions C02_clark_names.
+
+(* RenameNode /a/p:b[1] {tag:example.org,2005:x}c;  InsertNode /a[1] {urn:"quoted", odd}b 1;
+   InsertAttrib /a/p:b[1] {tag:example.org,2005:x}k "1, 2";  RenameAttrib /a/b[1] {tag:...}k {tag:...}j *)
+Definition clark_script : list gaction :=
+  [GA [82;101;110;97;109;101;78;111;100;101] [PStr [47;97;47;112;58;98;91;49;93]; PStr [123;116;97;103;58;101;120;97;109;112;108;101;46;111;114;103;44;50;48;48;53;58;120;125;99]];
+   GA [73;110;115;101;114;116;78;111;100;101] [PStr [47;97;91;49;93]; PStr [123;117;114;110;58;34;113;117;111;116;101;100;34;44;32;111;100;100;125;98]; PInt 1%Z];
+   GA [73;110;115;101;114;116;65;116;116;114;105;98] [PStr [47;97;47;112;58;98;91;49;93]; PStr [123;116;97;103;58;101;120;97;109;112;108;101;46;111;114;103;44;50;48;48;53;58;120;125;107]; PStr [49;44;32;50]];
+   GA [82;101;110;97;109;101;65;116;116;114;105;98] [PStr [47;97;47;98;91;49;93]; PStr [123;116;97;103;58;101;120;97;109;112;108;101;46;111;114;103;44;50;48;48;53;58;120;125;107]; PStr [123;116;97;103;58;101;120;97;109;112;108;101;46;111;114;103;44;50;48;48;53;58;120;125;106]]].
+Example C02_clark_example :
+  Forall (wf_action tables) clark_script /\
+  forallb (wf_actionb tables) clark_script = false /\
+  match format tables clark_script with
+  | Ok text => parse tables text = Ok clark_script /\ length (splitlines text) = 4%nat
+  | Err _ => False
+  end.
+Proof.
+  split; [|split].
+  - apply Forall_forall. intros a Ha. apply wf_actionqb_spec.
+    assert (H : forallb (wf_actionqb tables) clark_script = true) by (vm_compute; reflexivity).
+    rewrite forallb_forall in H. apply H, Ha.
+  - vm_compute. reflexivity.
+  - vm_compute. split; reflexivity.
+Qed.
+Print Assumptions C02_clark_example.
